@@ -114,6 +114,12 @@ func runC27(c *core.Ctx) error {
 				c.Violate(key, fmt.Sprintf("migrated type %s rejects the original's TL2 encoding %s: %s", p.Tn, hexs(p.TL2), s.Err), p)
 			case s.Consumed != len(p.TL2) || !eqInts(s.Dump.TL2, p.TL2):
 				c.Violate(key, fmt.Sprintf("migrated type %s: TL2 %s (original schema) is re-written as %s (consumed %d)", p.Tn, hexs(p.TL2), hexs(s.Dump.TL2), s.Consumed), p)
+			case p.BadKey:
+				// no valid JSON exists for a non-UTF-8 dictionary key (C05's known finding); C27 only asks
+				// for the same JSON as the original schema's code prints
+				if ro, err := orig.script(p.Tn, false, map[string]any{"op": "read2", "in": p.TL2}); err == nil && ro.Steps[0].Dump != nil && ro.Steps[0].Dump.JSON != s.Dump.JSON {
+					c.Violate(key, fmt.Sprintf("migrated type %s prints JSON %s, the original schema's code %s", p.Tn, s.Dump.JSON, ro.Steps[0].Dump.JSON), p)
+				}
 			default:
 				if got, err := parseJSON(s.Dump.JSON); err != nil {
 					c.Violate(key, "migrated code writes invalid JSON "+s.Dump.JSON, p)
